@@ -390,6 +390,7 @@ class Lowerer:
             raise Unsupported('function/pointer-to-function type %r' % s)
         s2 = re.sub(r'^(\s*\b(const|volatile|struct|class|enum|typename)\b\s*)+', '', s).strip()
         s2 = self.resolve_aliases(s2)
+        s2 = re.sub(r'^(\s*\b(const|volatile|struct|class|enum|typename)\b\s*)+', '', s2).strip()
         if s2 != s and (s2.endswith(('*', '&', ']')) or re.search(r'\bconst$', s2)):
             return self.parse_type(s2)
         if s2 in BUILTIN:
@@ -426,6 +427,8 @@ class Lowerer:
                     changed = True
                     return 'linalg::' + tok[4:]
                 und = al.get(tok)
+                if und is None and '::' in tok and not tok.startswith(('manifold::', 'std::', 'linalg::', 'tbb::')):
+                    und = al.get('manifold::' + tok)
                 if und and len(und) == 1:
                     changed = True
                     return next(iter(und))
@@ -2162,6 +2165,22 @@ class Lowerer:
             out.append('struct %s;' % n)
         for n in self.rec_order:
             out.append(self.rec_defs[n])
+        for q in self.spec.get('export_enums', []):
+            en = self.idx.enums.get(q)
+            if en is None:
+                raise InfraError('contract no longer attached: enum %s not found' % q)
+            val = 0
+            for c in en.get('inner', []):
+                if c.get('kind') != 'EnumConstantDecl':
+                    continue
+                v = None
+                for x in c.get('inner', []):
+                    v = self.const_value(x)
+                if v is not None:
+                    val = v
+                out.append('#define ENUM_%s_%s %d' % (mangle(q), c['name'], val))
+                val += 1
+            out.append('#define ENUMCOUNT_%s %d' % (mangle(q), sum(1 for c in en.get('inner', []) if c.get('kind') == 'EnumConstantDecl')))
         out.append('/*@TYPES_END@*/')
         for h in self.helper_order:
             out.append(self.helpers[h])
